@@ -42,9 +42,46 @@ JOBS = [
 ]
 META = {
  "level": "proof",
- "level_text": "TODO",
- "level_note": "TODO",
- "trusted_base": [],
- "explanation": "TODO",
- "assumptions": [],
+ "level_text": "Contracts enforced on the real bodies of myth_timespec_add, myth_timespec_gt, myth_nanosleep_body and myth_timedjoin_body (polling loops closed by loop contracts, so any number of clock readings), myth_usleep_body / myth_sleep_body checked against the proved nanosleep contract, hr_gettime and myth_yield_body against their callees; for all requests, deadlines and clock behaviours (ghost clock: monotone, otherwise arbitrary). The exact nanosecond part of the usleep conversion is a bounded stand-in (usec < 2^26) in the quick tier and complete (all 2^32 values, kissat) in the thorough tier.",
+ "level_note": "Trusted: cbmc 6.11 (dfcc contract and loop-contract instrumentation, SAT back end; kissat 'external' for one thorough job), gcc -E; the clock is assumed monotone and below 2^62 s, requests below 2^62 s (beyond that the deadline addition overflows in /repo -- reported finding); 'lets other threads run' is decided only as 'yields once per unsuccessful poll'; termination of the polling loops (clock progress) and the timedlock half (unit C04) are not decided here.",
+ "trusted_base": ["cbmc 6.11.0 (goto-cc, goto-instrument --dfcc --enforce-contract / --replace-call-with-contract / --apply-loop-contracts, SAT back end MiniSat2)",
+                  "kissat as external SAT solver for the thorough-tier job c20.usleep.ns",
+                  "gcc -E preprocessing of the real headers (rules R1, R2)",
+                  "paper steps: (a) instantiation of the ghost request g_req by the enforcing harness = ghost prologue of nanosleep_contract; "
+                  "(b) use of the separately proved lemma c20.lemma_mul as two assumed hint instances in c20.usleep"],
+ "explanation": "Ghost clock + call-protocol ghosts. hr_gettime is replaced by a contract (returns 0, normalised, monotone, otherwise arbitrary reading); "
+                "the first reading of a sleep fixes the ghost deadline start + request in carry form; every later reading that is not strictly past the "
+                "deadline owes exactly one yield (precondition of the next reading / of the yield); nanosleep returns EINVAL iff the duration is malformed and "
+                "before any reading (reading requires a well-formed request), and 0 only when the last reading was strictly past the deadline. usleep / sleep: "
+                "the request handed to nanosleep is exactly the specified duration (usec = s*10^6 + us -> s seconds, us*1000 ns; s seconds, 0 ns). timedjoin: "
+                "myth_tryjoin_body by contract (0 iff the target has finished at that attempt; the target may finish at any moment); first attempt before the first "
+                "reading, an attempt after every reading within the deadline, a yield between a failed polling attempt and the next reading, no attempt after a "
+                "success; non-zero (any error: the code returns EBUSY, POSIX would say ETIMEDOUT -- observation, accepted by the statement) only after a reading "
+                "strictly later than abstime; 0 iff an attempt succeeded. myth_timespec_add: exact normalised sum in carry form for all normalised inputs whose "
+                "tv_sec sum is representable; myth_timespec_gt: strict lexicographic order for all long values.",
+ "assumptions": [
+   "hr_gettime is used by contract in the sleep/join jobs: returns 0, 0 <= tv_nsec <= 999999999, reading not earlier than the previous one (MONOTONE clock), otherwise arbitrary. "
+   "The real hr_gettime reads CLOCK_REALTIME (proved in c20.hr_gettime), which the administrator can set backwards: then a sleep may last longer than requested, never shorter than the deadline reading",
+   "clock_gettime (OS) is a stub by contract in c20.hr_gettime (writes *ts, returns a status); in the other jobs its failure (non-zero return, which myth_nanosleep_body ignores and myth_timedjoin_body asserts away) is assumed not to happen",
+   "stated bounds: the clock reads 0 <= tv_sec < 2^62 and the requested tv_sec is < 2^62, so that start + request is representable. Without the bound the obligation "
+   "timespec_add_contract.precondition (and the signed-overflow checks on a->tv_sec + b->tv_sec) FAIL: myth_nanosleep({LONG_MAX,0}) overflows in myth_timespec_add and returns 0 immediately "
+   "(reproduced natively; diagnostic build: -DC20_FULL_REQ_RANGE on job c20.nanosleep). Reported to the lead as a finding, not repaired",
+   "myth_yield_body / myth_yield_ex_body are stubs by contract (a yield happened; in the join job the target may finish during it). That the yield really runs another runnable thread is C01/C02; "
+   "'let other runnable threads use the worker' is decided only as 'exactly one yield per unsuccessful deadline reading'",
+   "myth_tryjoin_body is a stub by contract (C13): returns 0 iff the target has finished at the attempt, else EBUSY; finishing is monotone; delivery of the result through the pointer is its business -- "
+   "timedjoin is only required to pass th and result through unchanged",
+   "timedjoin reports the timeout as EBUSY where POSIX pthread_timedjoin_np says ETIMEDOUT: accepted ('a timeout error' = any non-zero value), recorded as an observation",
+   "abstime of timedjoin is arbitrary (any two long values, also tv_nsec outside [0, 10^9)): the code does not validate it and the statement does not ask for it; comparison is lexicographic",
+   "ghost prologue: nanosleep_contract names the request g_req; the enforcing harness sets g_req := *req before the call, users of the contract obtain g_req == *req from its first ensures clause",
+   "c20.usleep assumes two instances of the monotonicity lemma proved for all a, b <= 4294 in c20.lemma_mul (a < b ==> a*10^6 + 10^6 <= b*10^6 in unsigned 32-bit), after proving the cut 0 <= tv_sec <= 4294; "
+   "without the hints SAT has to invert the 32-bit divider and does not finish in the quick budget",
+   "c20.usleep.ns.bounded (quick tier): exact nanosecond part only for usec < 2^26, labelled bounded; c20.usleep.ns (thorough tier, kissat, about 90 s) covers all 2^32 values",
+   "termination of the two polling loops is not decided (no decreases clause: it depends on the clock advancing); liveness of the sleeping thread (that it is resumed after the yield) is scheduler fairness",
+   "the public entry points myth_nanosleep / myth_usleep / myth_sleep / myth_timedjoin (src/myth_if_native.c) are one-line forwarders to the bodies (DESIGN 3.5b), not re-checked here",
+   "myth_mutex_timedlock_body is checked in unit C04 (job c04.timedlock)",
+   "rem of myth_nanosleep is never written (the sleep cannot be interrupted): proved as a frame condition, not an assumption",
+ ],
 }
+# Mutations in selftest/C20 (all CAUGHT): add_no_carry, gt_non_strict, nanosleep_nsec_edge (accepts tv_nsec == 10^9),
+# nanosleep_no_yield (busy-waits), nanosleep_stale_start (deadline computed before the clock is read),
+# usleep_wrong_factor (us * 100), timedjoin_clock_before_first_try, timedjoin_timeout_swallows_join.
